@@ -28,7 +28,8 @@ for pid, c in CHECKS.items():
     engines.setdefault(c["engine"], []).append(pid)
 ENG = {
     "lattice": ("mc/sweep.py", "explicit enumeration of the finite configuration lattice (operation x coordinate-system signature x flavor x backend x stratified value alphabet) against the real implementation, oracle evaluated at every point"),
-    "history": ("mc/history.py", "depth-bounded exhaustive search over event sequences on live objects, model compared after every event"),
+    "history": ("mc/props/C15.py", "depth-bounded exhaustive search over event sequences on live objects, model compared after every event"),
+    "history+schedule": ("mc/props/C20.py, mc/sched.py, mc/glob.py", "fork-tree exploration of call histories over process-global state, and preemption-bounded exploration of real threads under a sys.settrace scheduler"),
     "schedule": ("mc/sched.py", "hand-rolled preemption-bounded exploration of real threads under a sys.settrace scheduler"),
 }
 m = {
